@@ -240,14 +240,14 @@ var plain = am.Schema{"A": {}, "B": {}, "C": {}, "D": {}, "R": {Require: am.S{"Z
 func drivers() []*sk.Driver {
 	b := func(q, t int) map[string]int { return map[string]int{"quick": q, "thorough": t} }
 	defs := []driverDef{
-		{name: "a:add|add", schema: plain, bound: b(2, 3), names: []string{"t1", "t2"},
+		{name: "a:add|add", schema: plain, bound: b(2, 4), names: []string{"t1", "t2"},
 			threads: func(w *world) []func() {
 				return []func(){
 					func() { w.call("t1", func() am.Result { return w.m.Add1("A", nil) }) },
 					func() { w.call("t2", func() am.Result { return w.m.Add1("B", nil) }) },
 				}
 			}},
-		{name: "a2:add|add-canceled", schema: plain, bound: b(2, 3), names: []string{"t1", "t2"},
+		{name: "a2:add|add-canceled", schema: plain, bound: b(2, 4), names: []string{"t1", "t2"},
 			threads: func(w *world) []func() {
 				return []func(){
 					func() { w.call("t1", func() am.Result { return w.m.Add1("A", nil) }) },
@@ -255,7 +255,7 @@ func drivers() []*sk.Driver {
 					func() { w.call("t2", func() am.Result { return w.m.Add1("R", nil) }) },
 				}
 			}},
-		{name: "b:add|remove|set", schema: plain, bound: b(1, 2), names: []string{"t1", "t2", "t3"},
+		{name: "b:add|remove|set", schema: plain, bound: b(2, 3), names: []string{"t1", "t2", "t3"},
 			threads: func(w *world) []func() {
 				return []func(){
 					func() { w.call("t1", func() am.Result { return w.m.Add1("A", nil) }) },
@@ -263,21 +263,21 @@ func drivers() []*sk.Driver {
 					func() { w.call("t3", func() am.Result { return w.m.Set(am.S{"B"}, nil) }) },
 				}
 			}},
-		{name: "c:handler-mutates|add", schema: plain, handlers: true, bound: b(1, 2), names: []string{"t1", "t2"},
+		{name: "c:handler-mutates|add", schema: plain, handlers: true, bound: b(2, 3), names: []string{"t1", "t2"},
 			threads: func(w *world) []func() {
 				return []func(){
 					func() { w.call("t1", func() am.Result { return w.m.Add1("A", nil) }) },
 					func() { w.call("t2", func() am.Result { return w.m.Add1("C", nil) }) },
 				}
 			}},
-		{name: "c2:handler-mutates|veto", schema: plain, handlers: true, bound: b(1, 2), names: []string{"t1", "t2"},
+		{name: "c2:handler-mutates|veto", schema: plain, handlers: true, bound: b(2, 3), names: []string{"t1", "t2"},
 			threads: func(w *world) []func() {
 				return []func(){
 					func() { w.call("t1", func() am.Result { return w.m.Add1("A", nil) }) },
 					func() { w.call("t2", func() am.Result { return w.m.Add1("D", nil) }) }, // vetoed by DEnter
 				}
 			}},
-		{name: "d:eval|add", schema: plain, handlers: true, bound: b(1, 2), names: []string{"t1", "t2"},
+		{name: "d:eval|add", schema: plain, handlers: true, bound: b(2, 3), names: []string{"t1", "t2"},
 			threads: func(w *world) []func() {
 				return []func(){
 					func() {
@@ -287,7 +287,7 @@ func drivers() []*sk.Driver {
 					func() { w.call("t2", func() am.Result { return w.m.Add1("C", nil) }) },
 				}
 			}},
-		{name: "e:canadd|add", schema: plain, handlers: true, bound: b(1, 2), names: []string{"t1", "t2"},
+		{name: "e:canadd|add", schema: plain, handlers: true, bound: b(2, 3), names: []string{"t1", "t2"},
 			threads: func(w *world) []func() {
 				return []func(){
 					func() { w.results = append(w.results, res{"can", w.m.CanAdd1("C", nil)}) },
@@ -301,7 +301,7 @@ func drivers() []*sk.Driver {
 					func() { w.call("t2", func() am.Result { return w.m.Add1("Z", nil) }) },
 				}
 			}},
-		{name: "f:three-limit2", schema: plain, limit: 2, bound: b(1, 2), names: []string{"t1", "t2", "t3"},
+		{name: "f:three-limit2", schema: plain, limit: 2, bound: b(2, 3), names: []string{"t1", "t2", "t3"},
 			threads: func(w *world) []func() {
 				return []func(){
 					func() { w.call("t1", func() am.Result { return w.m.Add1("A", nil) }) },
